@@ -123,7 +123,7 @@ pub fn run_read_random(seed: u64, nframes: usize, max_payload: usize) -> Vec<Val
     let cut = if rng.gen_range(0..3) != 0 { total } else { rng.gen_range(0..=total) };
     stream.truncate(cut);
     let shared = Rc::new(RefCell::new(RShared { stream, rd: 0, script: None, rng: StdRng::seed_from_u64(seed ^ 0x77), intr_run: 0, log: vec![], desync: None }));
-    let mut reader = Reader::new(RSource(shared.clone()));
+    let mut reader = match crate::awrite::start_buffer(seed) { Some(b) => Reader::with_buffer(RSource(shared.clone()), b), None => Reader::new(RSource(shared.clone())) };
     reader.set_max_len(maxlen);
     let mut events = vec![json!({"ev":"reset","frames": frames.iter().map(|f| json!({"n":f.n,"good":f.good,"huge":f.huge})).collect::<Vec<_>>(),
                                  "cut": cut, "maxlen": maxlen, "seed": seed})];
@@ -222,7 +222,7 @@ pub fn run_write_random(seed: u64, nvals: usize, max_payload: usize) -> Vec<Valu
     let maxlen = if seed % 3 == 0 { (max_payload as u32 * 3) / 4 + 1 } else { max_payload as u32 };
     let vals: Vec<i64> = (0..nvals).map(|_| match rng.gen_range(0..12) { 0 => -1, 1 => 1, 2 => max_payload as i64, _ => rng.gen_range(1..=max_payload as i64) }).collect();
     let shared = Rc::new(RefCell::new(WShared { sink: vec![], script: None, rng: StdRng::seed_from_u64(seed ^ 0x99), intr_run: 0, faults_left: 1, log: vec![], desync: None }));
-    let mut writer = Writer::new(WSink(shared.clone()));
+    let mut writer = match crate::awrite::start_buffer(seed) { Some(b) => Writer::with_buffer(WSink(shared.clone()), b), None => Writer::new(WSink(shared.clone())) };
     writer.set_max_len(maxlen);
     let mut events = vec![json!({"ev":"reset","vals": vals, "maxlen": maxlen, "seed": seed})];
     for v in 1..=nvals {
